@@ -106,7 +106,10 @@ fn scenario(rng: &mut Rng, sc: usize, phase: usize, upfront: bool, initiator: us
 				for (i, j) in &queued { for _ in 0..3 { opts.push(Act::Deliver(*i, *j)); } }
 				for i in 0..2 { for id in &pend[i] { opts.push(Act::Complete(i, *id)); } }
 				// (a disconnection after the first closing_signed can lose the LAST closing_signed: one side has closed, the other force-closes — protocol behaviour, not the gate)
-				if linked && with_disc && !disc_done && step >= 2 && released == 0 { opts.push(Act::Disconnect); }
+				// … except when the only closing_signed so far sits PARKED behind an in-flight update at its receiver (nobody has closed): the
+				// disconnection must make both sides forget the dance (last_sent_closing_fee / pending_counterparty_closing_signed = None)
+				let parked_any = before.iter().any(|d| d.as_ref().map(|d| field(d, "pendcs") == "1").unwrap_or(false));
+				if linked && with_disc && !disc_done && step >= 2 && (released == 0 || (released == 1 && parked_any && queued.is_empty())) { opts.push(Act::Disconnect); if parked_any { for _ in 0..3 { opts.push(Act::Disconnect); } } }
 				if !linked { opts.push(Act::Reconnect); opts.push(Act::Reconnect); }
 				if linked && !closed_calls[1 - initiator] && rng.chance(1, 6) { opts.push(Act::Close(1 - initiator)); }
 				// close_channel at a moment get_shutdown must refuse (update in flight, peer disconnected, shutdown already exchanged)
@@ -176,6 +179,12 @@ fn scenario(rng: &mut Rng, sc: usize, phase: usize, upfront: bool, initiator: us
 			if sent_cs && (field(&d1, "fee") == "1" || field(&d1, "nin") != "0" || field(&d1, "nout") != "0") {
 				rec.oracle_fail(format!("{}: node {} released closing_signed while {} still pending on the channel ({}); history: {}", desc, x, if field(&d1, "fee") == "1" { "an update_fee was" } else { "HTLCs were" }, d1, history.join(" | "))); }
 			if field(&d1, "fee") == "1" && bit(&d1, 10) == 1 && bit(&d1, 11) == 1 { *rec.classes.entry("reach:update_fee-pending-with-both-shutdowns".into()).or_insert(0) += 1; }
+			if field(&d1, "expcs") == "1" && bit(&d1, 10) == 1 && bit(&d1, 11) == 1 { *rec.classes.entry("reach:expecting_peer_commitment_signed-with-both-shutdowns".into()).or_insert(0) += 1; }
+			if matches!(act, Act::Disconnect) && (field(&d0, "pendcs") == "1" || field(&d0, "last") == "1") { *rec.classes.entry(format!("reach:disconnect-forgets-the-dance:last={}:parked={}", field(&d0, "last"), field(&d0, "pendcs"))).or_insert(0) += 1; }
+			// implementation-side statement of dance_forgotten_while_disconnected (remove_uncommitted_htlcs_and_mark_paused)
+			if bit(&d1, 7) == 1 && (field(&d1, "last") == "1" || field(&d1, "pendcs") == "1") {
+				rec.oracle_fail(format!("{}: node {} is marked PEER_DISCONNECTED but still {} (the closing_signed dance must start over after a reconnection; a parked closing_signed would be answered from a stale negotiation once the monitor update completes); state {}; history: {}", desc, x,
+					if field(&d1, "pendcs") == "1" { "keeps the peer's closing_signed parked behind the in-flight ChannelMonitorUpdate" } else { "counts its closing_signed as sent" }, d1, history.join(" | "))); }
 			let out = if sent_cs { "closingsigned" } else if parked_now { "parked" } else { "-" };
 			let u = |b: Option<bool>| format!("{} {}", b.is_some() as u8, b.unwrap_or(false) as u8);
 			let mut main_op: Option<String> = None; let mut resync = other_upd;
